@@ -72,7 +72,7 @@ func c15Gen(r *run.Rng, small bool) *c15Grad {
 	if small {
 		w, h = r.Range(2, 40), r.Range(2, 40)
 	}
-	q.rect = image.Rect(0, 0, w, h).Add(image.Pt(r.Intn(50), r.Intn(50)))
+	q.rect = image.Rect(0, 0, w, h).Add(image.Pt(r.Range(-30, 50), r.Range(-30, 50))) // origins of either sign
 	if q.dyadic {
 		q.vb = ivg.ViewBox{MinX: 0, MinY: 0, MaxX: float32(w), MaxY: float32(h)}
 	} else {
@@ -432,7 +432,7 @@ func c15Pixels(c *run.Ctx, idx uint64) {
 	r := c.Rng(idx)
 	q := c15Gen(r, true)
 	w, h := q.rect.Dx(), q.rect.Dy()
-	img := image.NewRGBA(image.Rect(0, 0, q.rect.Max.X+3, q.rect.Max.Y+3))
+	img := image.NewRGBA(q.rect.Inset(-3).Union(image.Rect(0, 0, 1, 1))) // the image may have negative bounds
 	var z render.Renderer
 	z.SetRasterizer(&vec.Rasterizer{Dst: img, DrawOp: draw.Src}, q.rect)
 	z.Reset(q.vb, ivg.DefaultPalette)
